@@ -38,7 +38,7 @@ pub fn gen_config(profile: &str, rng: &mut Rng, tier: Tier) -> Config {
 				nc.async_default = r.chance(1, 2);
 				nc.deferred = r.chance(1, 3);
 			},
-			"crash" | "forward" | "payments" | "receive" | "onchain" | "roundtrip" | "chainstyle" => {
+			"crash" | "forward" | "payments" | "receive" | "onchain" | "roundtrip" | "chainstyle" | "tamper" => {
 				nc.async_default = r.chance(1, 4);
 				nc.deferred = r.chance(1, 5);
 			},
@@ -109,7 +109,7 @@ pub fn gen_config(profile: &str, rng: &mut Rng, tier: Tier) -> Config {
 			w(&mut weights, "AsyncOn", 2);
 			w(&mut weights, "PersistMgr", 6);
 		},
-		"forward" | "payments" | "receive" | "crash" | "onchain" | "roundtrip" | "chainstyle" => {
+		"forward" | "payments" | "receive" | "crash" | "onchain" | "roundtrip" | "chainstyle" | "tamper" => {
 			w(&mut weights, "CompleteMon", *r.pick(&[10, 25, 50]));
 			w(&mut weights, "AsyncOn", 1);
 			w(&mut weights, "PersistMgr", *r.pick(&[3, 8, 20]));
@@ -122,6 +122,11 @@ pub fn gen_config(profile: &str, rng: &mut Rng, tier: Tier) -> Config {
 			w(&mut weights, "SetFee", 0);
 		},
 		_ => {},
+	}
+	if profile == "tamper" {
+		w(&mut weights, "Tamper", *r.pick(&[2, 4, 8]));
+		w(&mut weights, "Crash", *r.pick(&[0, 0, 1]));
+		w(&mut weights, "ArmCrash", 0);
 	}
 	if profile == "onchain" {
 		w(&mut weights, "ForceClose", *r.pick(&[1, 2, 4]));
@@ -359,6 +364,19 @@ pub fn next_action(wd: &World, rng: &mut Rng) -> Option<Action> {
 	if !nonempty.is_empty() {
 		kinds.push(("Deliver", weight(cfg, "Deliver")));
 	}
+	let tamperable: Vec<(usize, usize, bool)> = wd
+		.queues
+		.iter()
+		.filter_map(|((f, t), q)| match q.front() {
+			Some(WireMsg::Revoke(_)) => Some((*f, *t, true)),
+			Some(WireMsg::Commit(_)) => Some((*f, *t, false)),
+			_ => None,
+		})
+		.filter(|(f, t, _)| wd.is_conn(*t, *f) && wd.nodes[*t].live.is_some())
+		.collect();
+	if !tamperable.is_empty() && wd.tampers_done < 2 {
+		kinds.push(("Tamper", weight(cfg, "Tamper")));
+	}
 	// T1/T3: the random phase may move the chain only by a bounded number of blocks, so that no
 	// HTLC comes near its expiry while a node is down or messages are delayed
 	if wd.out.sim_blocks < 18 {
@@ -436,6 +454,10 @@ pub fn next_action(wd: &World, rng: &mut Rng) -> Option<Action> {
 		"Deliver" => {
 			let (f, t) = *rng.pick(&nonempty);
 			Action::Deliver { from: f, to: t }
+		},
+		"Tamper" => {
+			let (f, t, is_raa) = *rng.pick(&tamperable);
+			Action::Tamper { from: f, to: t, kind: if is_raa { rng.below(2) as u8 } else { 2 } }
 		},
 		"Reconnect" => {
 			let (a, b) = *rng.pick(&down);
